@@ -963,7 +963,7 @@ func main() {
 		"id), scan batch size 1..4 or 1024 through the hook, a failing SaveReplicationStatus (not applied / applied-but-error, 1st or 2nd save of the " +
 		"tick), a failing AllocID (1st or 2nd switch attempt) and a failing FileReplicater, on a mockcluster with a recording FileReplicater; region state ids are only ever ids already published " +
 		"(a store cannot report an id PD has not issued); non-trivial = at least two status changes and at least one failed save or refused sync; " +
-		"distinct by sha256 of the canonical case text"
+		"distinct by sha256 of the canonical case text; Further classes (see notes/C19.md): the async timeout as real clock inputs, restarts of the manager with a failing status load, scripted ticks, two ways of being down; Server.SetReplicationModeConfig on a real bootstrapped server with failing config / status writes and other spellings of the mode; Server.ReplicateFileToAllMembers on three real members with one down"
 	cf := &coqfmt.CaseFile{Dir: *out, Prefix: "C19", PerFile: 50,
 		Header: "From Coq Require Import String.\nFrom PDV Require Import lib.Base model.C19_DrSync.\nLocal Open Scope string_scope.\nLocal Open Scope Z_scope.\n",
 		Type:   "case",
